@@ -101,7 +101,7 @@ def ref_run(script, eng):
             store, ok = apply_batch(store, batch)
             batch = []
             res.append("ok" if ok else "err")
-        elif c in ("X", "N"):
+        elif c in ("X", "N", "W"):
             batch = []
         elif c == "F":
             pass
